@@ -12,7 +12,8 @@ THEOREMS = ["EngineModel.Properties.C06V2." + t for t in [
     "v2_C06_get_set", "v2_C06_frame", "v2_C06_other_track", "v2_C06_step", "v2_C06_history",
     "v2_C06_obs_is_snapshot", "v2_C06_dbok_empty", "v2_C06_dbok_create",
     "v2_C06_model_get_set_frame", "v2_C06_model_slot_frame", "v2_C06_model_derived", "v2_C06_eight_slots",
-    "v2_C06_history_getters", "v2_C06_value_last_set", "v2_C06_statement_level"]]
+    "v2_C06_history_getters", "v2_C06_value_last_set", "v2_C06_statement_level", "v2_C06_dbok_update",
+    "v2_C06_removed_track", "v2_C06_norm_is_C01_norm"]]
 ASSUMPTIONS = [
     "2.x: the lens theorems are stated on Db.set (whole effect or nothing); v2_C06_statement_level proves that the "
     "statement sequences of track_impl.cpp (EngineModel/TracksV2/Table.lean: SELECT / UPDATE in the C++ order, transaction "
@@ -24,7 +25,10 @@ ASSUMPTIONS = [
 MANIFEST_TEXT = ("Schema 2.x: every setter of track_impl is proved to be the lens the Spec describes (named field = "
                  "normalised value, the other 24 snapshot fields and all other tracks unchanged, throws exactly where "
                  "the Spec rejects, never ub), getters = snapshot fields, lifted by induction to arbitrary setter "
-                 "histories over any number of tracks; tied by generated histories over 3 tracks (every setter, slot "
+                 "histories over any number of tracks; get∘set, frame (incl. per-slot and the derived filename / extension), "
+                 "history_getters and 'the value last set' are also stated on the Model's own applySetter / getters; the "
+                 "statement sequences of track_impl.cpp project onto the lens model (v2_C06_statement_level); removed tracks "
+                 "stay removed and refuse every call; tied by generated histories over 3 tracks (every setter, slot "
                  "setters at -1..9) with all getters, snapshot() of all tracks and the raw row after each step, and "
                  "the lens Spec evaluated on the real library's previous answers.")
 TRUSTED_EXTRA = []
